@@ -99,6 +99,38 @@ func (fr *Frame) guardedCheck(st *State, fa *ssa.FieldAddr, base Val, pos token.
 			fmt.Sprintf("%s of %s.%s requires lock %s", kind, sk, fname, l))
 		return
 	}
+	// after_recv f:ch -- field f is published by closing (or sending on) the channel in field ch:
+	// it is written only by the functions listed under `publishers f:<func>`, before they signal,
+	// and read elsewhere only after a receive from that channel in the same function
+	for _, ar := range tc.Flags["after_recv"] {
+		parts := strings.SplitN(ar, ":", 2)
+		if len(parts) != 2 || strings.TrimSpace(parts[0]) != fname {
+			continue
+		}
+		isPub := false
+		for _, pb := range tc.Flags["publishers"] {
+			pp := strings.SplitN(pb, ":", 2)
+			if len(pp) == 2 && strings.TrimSpace(pp[0]) == fname && (strings.TrimSpace(pp[1]) == fr.oblFunc() || strings.TrimSpace(pp[1]) == fr.fname) {
+				isPub = true
+			}
+		}
+		if isPub {
+			return
+		}
+		cond := freshObj
+		if !write {
+			chf := strings.TrimSpace(parts[1])
+			for i := 0; i < sto.NumFields(); i++ {
+				if sto.Field(i).Name() == chf {
+					chv := sSelect(r.get(st, r.fieldKey(sk, sto.Field(i))), base.S)
+					cond = sOr(freshObj, sSelect(r.get(st, "g|$recvd"), chv))
+				}
+			}
+		}
+		r.require(st, "guarded", fr.oblFunc(), fr.oblName(fmt.Sprintf("%s-after-recv(%s.%s)@%s", kind, sk, fname, r.eng.pos(pos))), cond, tc.Tags, pos,
+			fmt.Sprintf("%s of %s.%s outside its publisher needs a preceding receive from %s", kind, sk, fname, strings.TrimSpace(parts[1])))
+		return
+	}
 	if write {
 		for _, f := range tc.Flags["immutable"] {
 			isWriter := false
